@@ -5,6 +5,9 @@ C13 — model of the article-id codec:
   ptttype/types.go : Filename_t.Type/CreateTime/Postfix/ToAidu, Aidu.Type/Time/Postfix/ToFN,
                      Aidu.ToAidc, Aidc.ToAidu
   bbs/article_id.go: ToArticleID, ArticleID.ToRaw
+and of the places that hand a name / id to a client (designation layer, further down):
+  ptt/bbs.go       : GetWebURL, the url line of DoPostArticle, the cross-post reference
+  bbs/article_summary.go: NewArticleSummaryFromRaw (id / deleted / file name of an entry)
 Bytes are `Nat`s below 256; `Aidu` is a Go uint64, modelled as a `Nat` reduced mod 2^64 where Go wraps.
 -/
 namespace PttVerif.C13
@@ -142,6 +145,94 @@ def toArticleID (f : List Nat) : List Nat := cstr (aiduToAidc (fnToAidu (idName 
 def articleIDToRaw (a : List Nat) : M (List Nat) := do
   let aidu ← aidcToAidu (copyInto 8 a)
   pure (aiduToFN aidu)
+
+/-! ### the designation layer: where a name / id is handed to a client
+
+  ptt/bbs.go              : GetWebURL, the url line DoPostArticle appends, the `#<aidc>` reference
+                            crossPostWriteFile prints
+  bbs/article_summary.go  : NewArticleSummaryFromRaw (id, deleted flag, file name of a listing entry;
+                            the same function builds the answer of CreateArticle / CrossPost)
+and the way back a reader of such a text takes (strip prefix / board / `.html`, or `ArticleID.ToRaw`). -/
+
+/-- ".html" -/
+def htmlExt : List Nat := [46, 104, 116, 109, 108]
+
+/-- `types.CstrToString(f.ToAidu().ToAidc()[:])` — the 8 characters GetWebURL (USE_AID_URL) and the
+cross-post header print. Unlike `ToArticleID` there is no delete-mark handling here. -/
+def aidcText (f : List Nat) : List Nat := cstr (aiduToAidc (fnToAidu f))
+
+/-- `ptt.GetWebURL`: `URL_PREFIX + "/" + folder + "/" + fn + ext`. `board` is the Brdname array,
+`f` the record's Filename array. -/
+def webURL (useAid : Bool) (pfx board f : List Nat) : List Nat :=
+  let folder := cstr board
+  let fn := if useAid then aidcText f else cstr f
+  let ext := if useAid then [] else htmlExt
+  pfx ++ [47] ++ folder ++ [47] ++ fn ++ ext
+
+/-- the line DoPostArticle appends to the article:
+`fmt.Sprintf("%s %v\n", STR_URL_DISPLAYNAME_BIG5, url)`. -/
+def urlLine (disp url : List Nat) : List Nat := disp ++ [32] ++ url ++ [10]
+
+/-- `strings.CutPrefix`. -/
+def stripPrefix : List Nat → List Nat → Option (List Nat)
+  | [], s => some s
+  | _ :: _, [] => none
+  | a :: p, b :: s => if a = b then stripPrefix p s else none
+
+/-- `strings.CutSuffix`. -/
+def stripSuffix (x s : List Nat) : Option (List Nat) :=
+  (stripPrefix x.reverse s.reverse).map List.reverse
+
+/-- cut at the first '/'. -/
+def splitSlash : List Nat → Option (List Nat × List Nat)
+  | [] => none
+  | c :: cs =>
+      if c = 47 then some ([], cs)
+      else match splitSlash cs with
+        | none => none
+        | some (a, b) => some (c :: a, b)
+
+/-- what the reader of an article url does: drop `URL_PREFIX/`, cut the board off at the next '/',
+and turn the last path segment into a file name — through `ArticleID.ToRaw` when the url carries the
+8-character id, by dropping ".html" (and copying into a Filename_t) otherwise.
+`none`: the text is not a url of that shape. -/
+def resolveURL (useAid : Bool) (pfx url : List Nat) : M (Option (List Nat × List Nat)) :=
+  match stripPrefix (pfx ++ [47]) url with
+  | none => pure none
+  | some rest =>
+    match splitSlash rest with
+    | none => pure none
+    | some (folder, seg) =>
+      if useAid then do
+        let f ← articleIDToRaw seg
+        pure (some (folder, f))
+      else
+        match stripSuffix htmlExt seg with
+        | none => pure none
+        | some n => pure (some (folder, copyInto FNLEN n))
+
+/-- the same for the whole line found in an article file. -/
+def resolveLine (useAid : Bool) (disp pfx line : List Nat) : M (Option (List Nat × List Nat)) :=
+  match stripPrefix (disp ++ [32]) line with
+  | none => pure none
+  | some r =>
+    match stripSuffix [10] r with
+    | none => pure none
+    | some url => resolveURL useAid pfx url
+
+/-- what `bbs.NewArticleSummaryFromRaw` reports to identify an index record (listing entry, answer of
+CreateArticle / CrossPost): the id, the deleted flag (`FileHeaderRaw.IsDeleted`: name starts with '.'
+or owner starts with '-'), the file name as a string. -/
+structure Entry where
+  id : List Nat
+  deleted : Bool
+  filename : List Nat
+  deriving DecidableEq, Repr
+
+def listEntry (f : List Nat) (owner0 : Nat) : Entry :=
+  { id := toArticleID f
+    deleted := f[0]? == some 46 || owner0 == 45
+    filename := cstr f }
 
 /-! ### the names the property is about -/
 
